@@ -51,6 +51,11 @@ Next ==
   \/ \E i \in 1..N : Len(sent[i].others) > 0 /\ Alter("alterOther", i, "none", [sent EXCEPT ![i].others[1] = <<"oth", 99, 1>>])
   \/ \E i \in 1..N : Len(sent[i].others) > 1 /\ Alter("swapOthers", i, "none", [sent EXCEPT ![i].others = <<@[2], @[1]>>])
   \/ \E i \in 1..N, k \in KeyIds : k # sent[i].key /\ Alter(IF k = "k3" THEN "keyUnknown" ELSE IF k = "none" THEN "keyDropped" ELSE "keyOther", i, k, [sent EXCEPT ![i].key = k])
+  \* the bytes of two adjacent numbers re-divided: the concatenation of their big-endian encodings is unchanged, the numbers are not
+  \* (a commitment hash without framing of its fields would not notice)
+  \/ \E i \in 1..N : Alter("shiftValComm", i, "none", [sent EXCEPT ![i].val = <<"val+", i>>, ![i].comm = <<"comm-", i>>])
+  \/ \E i \in 1..N : Len(sent[i].others) > 0 /\ Alter("shiftCommOther", i, "none", [sent EXCEPT ![i].comm = <<"comm+", i>>, ![i].others[1] = <<"oth-", i, 1>>])
+  \/ \E i \in 1..(N - 1) : Len(sent[i].others) = 0 /\ Alter("shiftNext", i, "none", [sent EXCEPT ![i].comm = <<"comm+", i>>, ![i + 1].val = <<"val-", i + 1>>])
   \/ \E i \in 1..(N - 1) : Alter("swap", i, "none", [sent EXCEPT ![i] = sent[i + 1], ![i + 1] = sent[i]])
   \/ \E i \in 1..N : N > 1 /\ Alter("drop", i, "none", RemoveAt(sent, i))
   \/ \E i \in 1..N : Alter("duplicate", i, "none", Append(sent, sent[i]))
